@@ -106,6 +106,23 @@ func mkI1() *arrow.Schema {
 func mkI2() *arrow.Schema {
 	return arrow.NewSchema([]arrow.Field{{Name: "q", Type: arrow.BinaryTypes.String, Nullable: true}}, nil)
 }
+
+// Near-twin schemas (GenE_twins.cfg): each pair agrees on column names, type ids and
+// nullability and differs only in metadata, fixed_size_binary width and list element
+// nullability -- what a digest of a schema is most likely to leave out.
+func mkTwin(t bool) *arrow.Schema {
+	w, unit, v, elemNull := 16, "USD", "1", false
+	if t {
+		w, unit, v, elemNull = 32, "EUR", "2", true
+	}
+	fmd := arrow.NewMetadata([]string{"unit"}, []string{unit})
+	smd := arrow.NewMetadata([]string{"v"}, []string{v})
+	return arrow.NewSchema([]arrow.Field{
+		{Name: "d", Type: &arrow.FixedSizeBinaryType{ByteWidth: w}},
+		{Name: "xs", Type: arrow.ListOfField(arrow.Field{Name: "item", Type: arrow.PrimitiveTypes.Int64, Nullable: elemNull})},
+		{Name: "k", Type: arrow.BinaryTypes.String, Metadata: fmd},
+	}, &smd)
+}
 func mkH0() *arrow.Schema { return arrow.NewSchema(nil, nil) }
 func mkH1() *arrow.Schema {
 	return arrow.NewSchema([]arrow.Field{
@@ -129,6 +146,10 @@ func schemaArg(id string) *arrow.Schema {
 		return mkH0()
 	case "H1":
 		return mkH1()
+	case "O3", "I3", "H2":
+		return mkTwin(false)
+	case "O3t", "I3t", "H2t":
+		return mkTwin(true)
 	case "NIL", "-":
 		return nil
 	}
@@ -155,6 +176,8 @@ var expected = map[string]*arrow.Schema{
 	"Rptr":    arrow.NewSchema([]arrow.Field{{Name: "result", Type: arrow.PrimitiveTypes.Float64, Nullable: true}}, nil),
 	"Rstruct": arrow.NewSchema([]arrow.Field{{Name: "result", Type: arrow.BinaryTypes.Binary}}, nil),
 	"O1":      mkO1(), "O2": mkO2(), "H0": mkH0(), "H1": mkH1(),
+	"O3": mkTwin(false), "O3t": mkTwin(true), "I3": mkTwin(false), "I3t": mkTwin(true),
+	"H2": mkTwin(false), "H2t": mkTwin(true),
 }
 
 func metaEqual(a, b arrow.Metadata) bool {
